@@ -474,7 +474,9 @@ class Ser:
             self.w("string:")
             self.parts(e["parts"], in_string=True)
         elif k == "errinfo":
-            self.w("string:${error.type.__name__}")
+            # ERR records what the fallback expression can read from the
+            # ``error`` variable (type, value, line, column), returns ''
+            self.w("string:${error.type.__name__}${ERR(error)}")
         else:
             raise ValueError(k)
         self.stack.pop()
